@@ -183,7 +183,7 @@ META["C05"] = {
 
 META["C06"] = {
     "title": "Subjects deliver each item once, in order, to exactly the current subscribers",
-    "rule": "cases = (subject type in {Subject, SubjectThreads, MutRefItemSubject, MutRefErrSubject, MutRefItemErrSubject}, random history of length <= 12 quick / <= 30 thorough over subscribe / unsubscribe-one / next / error / complete / clone / retain / unsubscribe-subject / arm-a-subscribe-from-inside-the-callback (one newcomer, or two newcomers of which the first leaves again before the callback returns), <= 3 regular subscribers plus nested ones). Every history is executed on the real subject and, in lock step, on a sequential multicast model (for the &mut variants the probe mutates the item/error and the model tracks the mutation chain and the value handed back to the emitter). After every step past a terminal/unsubscribe the flags is_finished/is_closed/is_empty/len are compared. Non-trivial: >= 2 subscribers and a join or leave happened between two emissions; distinct = hash(type, history). The SubjectThreads two/three-thread part is run under the baton scheduler (thread_* counters): each thread runs up to 4 of next / subscribe / unsubscribe(k) / retain()+len() / complete / error / unsubscribe-subject on clones of one subject; also is_closed() on a clone of the subject; oracle on call/return stamps (must / must-not receive, exactly once), common order, terminal consistency (no item to anybody once anybody received a terminal; whoever received an item and did not leave receives the terminal; nothing after the subject's own is_closed() returned true), panic, every call returned.",
+    "rule": "cases = (subject type in {Subject, SubjectThreads, MutRefItemSubject, MutRefErrSubject, MutRefItemErrSubject}, random history of length <= 12 quick / <= 30 thorough over subscribe / unsubscribe-one / next / error / complete / clone / retain / unsubscribe-subject / arm-a-subscribe-from-inside-the-callback (one newcomer, or two newcomers of which the first leaves again before the callback returns; an armed subscriber that has not received an item when a terminal reaches it subscribes from inside its TERMINAL callback - counter histories_with_subscribe_inside_a_terminal_callback - and that newcomer is owed nothing), <= 3 regular subscribers plus nested ones). Every history is executed on the real subject and, in lock step, on a sequential multicast model (for the &mut variants the probe mutates the item/error and the model tracks the mutation chain and the value handed back to the emitter). After every step past a terminal/unsubscribe the flags is_finished/is_closed/is_empty/len are compared. Non-trivial: >= 2 subscribers and a join or leave happened between two emissions; distinct = hash(type, history). The SubjectThreads two/three-thread part is run under the baton scheduler (thread_* counters): each thread runs up to 4 of next / subscribe / unsubscribe(k) / retain()+len() / complete / error / unsubscribe-subject on clones of one subject; also is_closed() on a clone of the subject; oracle on call/return stamps (must / must-not receive, exactly once), common order, terminal consistency (no item to anybody once anybody received a terminal; whoever received an item and did not leave receives the terminal; nothing after the subject's own is_closed() returned true), panic, every call returned.",
     "assumptions": COMMON_ASSUME + [
         "len()/is_empty() are only checked where the statement speaks (after a terminal or unsubscribe())",
         "a subscriber that joins after the subject terminated receives nothing (what the statement says: it delivers nothing after a terminal)",
@@ -226,7 +226,7 @@ META["C07"] = {
 
 META["C09"] = {
     "title": "Rate-limiting operators never invent, duplicate or reorder items",
-    "rule": "cases = (operator in debounce / throttle_time / throttle(duration selector) with all three edge modes / sample(interval) / buffer_with_time / buffer_with_count_and_time, window in {1,5,10} ms (and, for debounce and the throttles, a zero-length window in one case of eight: invariants only), timed script of 0..n uniquely numbered items (quick n=5, thorough n=9) whose gaps are 0, 1, window-1, window, window+1, 2*window(+1) ms, terminal none/complete/error, scheduler form, task order fifo|any, prompt|late schedule, seed). Every order of a source event and a timer falling due at the same instant is an explorer choice. Non-trivial: at least one item was suppressed or buffered AND at least one emission happened at an instant with no source event (i.e. was made by a timer); distinct = hash(case). A share of the cases (counter runs_on_the_real_LocalPool) is built with the library's own `impl Scheduler for futures::executor::LocalSpawner` and run on the real futures LocalPool (run_until_stalled / try_run_one) instead of the harness executor. Thread part: debounce / throttle_time (all three edges) / buffer_with_time / buffer_with_count_and_time / sample(interval) over a hot SubjectThreads with 1-2 producer threads (1-3 items each, optional terminal, optional unsubscribing thread) while a managed worker thread runs the operator's timer tasks and fires the virtual timers - i.e. a multi-threaded scheduler, where a timer task can run in the middle of a next() call; random/PCT and preemption-bounded systematic schedules at the hooked lock points plus free-running OS threads; oracle: only emitted items, each at most once, each producer's items in its own order, nothing delivered before its next() was called; the time buffers lose nothing when the source completes, are never empty and never exceed the count limit; for debounce and throttle_time without an unsubscribe additionally linearizability with the timer tasks as operations: every source call (interval call..return) and every task poll that finished a task (interval of the poll on the worker thread) is an operation, a delivery belongs to the operation of its thread that contains it, and some total order respecting real time must make the sequential operator model emit, operation by operation, exactly what was observed inside it.",
+    "rule": "cases = (operator in debounce / throttle_time / throttle(duration selector) with all three edge modes / sample(interval) / buffer_with_time / buffer_with_count_and_time, window in {1,5,10} ms (and, for debounce and the throttles, a zero-length window in one case of eight: invariants only), timed script of 0..n uniquely numbered items (quick n=5, thorough n=9) whose gaps are 0, 1, window-1, window, window+1, 2*window(+1) ms, terminal none/complete/error, scheduler form, task order fifo|any, prompt|late schedule, seed); in half of the scripts without a terminal the program then lets its subscription handle go out of scope and the source subject drops its observers (counter scripts_whose_source_goes_away_unterminated): what is pending at that moment is still owed exactly as if the source had stayed. Every order of a source event and a timer falling due at the same instant is an explorer choice. Non-trivial: at least one item was suppressed or buffered AND at least one emission happened at an instant with no source event (i.e. was made by a timer); distinct = hash(case). A share of the cases (counter runs_on_the_real_LocalPool) is built with the library's own `impl Scheduler for futures::executor::LocalSpawner` and run on the real futures LocalPool (run_until_stalled / try_run_one) instead of the harness executor. Thread part: debounce / throttle_time (all three edges) / buffer_with_time / buffer_with_count_and_time / sample(interval) over a hot SubjectThreads with 1-2 producer threads (1-3 items each, optional terminal, optional unsubscribing thread) while a managed worker thread runs the operator's timer tasks and fires the virtual timers - i.e. a multi-threaded scheduler, where a timer task can run in the middle of a next() call; random/PCT and preemption-bounded systematic schedules at the hooked lock points plus free-running OS threads; oracle: only emitted items, each at most once, each producer's items in its own order, nothing delivered before its next() was called; the time buffers lose nothing when the source completes, are never empty and never exceed the count limit; for debounce and throttle_time without an unsubscribe additionally linearizability with the timer tasks as operations: every source call (interval call..return) and every task poll that finished a task (interval of the poll on the worker thread) is an operation, a delivery belongs to the operation of its thread that contains it, and some total order respecting real time must make the sequential operator model emit, operation by operation, exactly what was observed inside it.",
     "assumptions": COMMON_ASSUME + [
         "invariants (only source items, at most once, in source order, source's terminal, buffers non-empty / <= count / concatenating to the source on completion) are checked on every run; the exact debounce and throttle models are applied to prompt runs only and branch where a source event coincides with a window end (either order accepted); late runs are judged by 'never earlier than arrival + window'",
         "throttle model: leading edge emits the window-opening item at once; trailing edge emits the last item of the window at window end (in trailing-only mode the opener counts), each item at most once; the trailing emission does not open a window; completion flushes the trailing item",
@@ -235,7 +235,7 @@ META["C09"] = {
     "level_text": "Exploration over sampled timed scripts and schedules; exact-model comparison on prompt runs, invariants on all runs.",
     "level_note": "Trusted: debounce/throttle models in harness/src/props/c09.rs, virtual clock, arena executor.",
     "design_ref": "DESIGN.md §5 C09",
-    "require": {"quick": {"operators_covered": 10, "exact_model_runs": 50000, "thread_schedules": 5000, "free_parallel_runs": 1000}, "thorough": {"operators_covered": 10, "thread_schedules": 200000, "free_parallel_runs": 80000}},
+    "require": {"quick": {"operators_covered": 10, "exact_model_runs": 50000, "scripts_whose_source_goes_away_unterminated": 10000, "thread_schedules": 5000, "free_parallel_runs": 1000}, "thorough": {"operators_covered": 10, "thread_schedules": 200000, "free_parallel_runs": 80000}},
 }
 
 META["C15"] = {
@@ -268,7 +268,7 @@ META["C20"] = {
 
 META["C16"] = {
     "title": "Ending a stream early retires the producers that feed it",
-    "rule": "cases = (producer in interval(1|5 ms) / from_iter over a counting iterator capped at 1500 pulls / from_stream over an endless self-waking scripted stream, position main or secondary/notifier input of skip_until / take_until / sample / buffer / with_latest_from / merge / zip / combine_latest (hot main input emitting every 3 ms), or inner observable of flat_map / concat_map / merge_all(2) (hot outer emitting exactly one item, so that exactly one inner producer exists when the cutter fires), 0..n intermediate operators, cutter in take / first / first_or / element_at / take_while(_inclusive) / contains / all, scheduler form, task order). A sweep puts every catalogue operator (single-input, two-input with a cold other, flattening, scheduler-using, finalize, share) once in the middle position for every producer; a second sweep (counter ended_from_the_side_cases) ends the stream from the side - merge with of(1) or timer(2ms), take_until(of(1)) or take_until(timer(2ms)) - below an operator that forwards nothing at that point (skip_until(never), filter(false), filter_map(false), skip_while(true), skip(100000), ignore_elements, last, take_last, reduce, count, collect, skip_last(100000), sample(never), buffer(never), debounce(50ms > the producer's period)) for every producer and both scheduler forms; the rest are seeded random chains of depth <= 2 quick / <= 4 thorough. Every case runs on the virtual clock to a 200 ms horizon. Thread part (scenario interval+workers): interval(1ms).take(k) ticking on 1-2 worker threads, ended by take or by an unsubscribing thread; after everything ran until idle no scheduled task and no virtual timer may be left (run-until-idle terminates). Cases with the producer in the other input of every two-input operator whose main input is `throw` or `empty`, i.e. a stream that is over at subscription time (counter main_input_over_at_subscription_cases). A case counts (non-trivial) only if the cutter actually fired; distinct = hash(case).",
+    "rule": "cases = (producer in interval(1|5 ms) / from_iter over a counting iterator capped at 1500 / 1501 pulls (the even cap reports its exact remaining length through size_hint(), like a Vec or range iterator; the odd one leaves size_hint() at its default) / from_stream over an endless self-waking scripted stream, position main or secondary/notifier input of skip_until / take_until / sample / buffer / with_latest_from / merge / zip / combine_latest (hot main input emitting every 3 ms), or inner observable of flat_map / concat_map / merge_all(2) (hot outer emitting exactly one item, so that exactly one inner producer exists when the cutter fires), 0..n intermediate operators, cutter in take / first / first_or / element_at / take_while(_inclusive) / contains / all, scheduler form, task order). A sweep puts every catalogue operator (single-input, two-input with a cold other, flattening, scheduler-using, finalize, share) once in the middle position for every producer; a second sweep (counter ended_from_the_side_cases) ends the stream from the side - merge with of(1) or timer(2ms), take_until(of(1)) or take_until(timer(2ms)) - below an operator that forwards nothing at that point (skip_until(never), filter(false), filter_map(false), skip_while(true), skip(100000), ignore_elements, last, take_last, reduce, count, collect, skip_last(100000), sample(never), buffer(never), debounce(50ms > the producer's period)) for every producer and both scheduler forms; the rest are seeded random chains of depth <= 2 quick / <= 4 thorough. Every case runs on the virtual clock to a 200 ms horizon. Thread part (scenario interval+workers): interval(1ms).take(k) ticking on 1-2 worker threads, ended by take or by an unsubscribing thread; after everything ran until idle no scheduled task and no virtual timer may be left (run-until-idle terminates). Cases with the producer in the other input of every two-input operator whose main input is `throw` or `empty`, i.e. a stream that is over at subscription time (counter main_input_over_at_subscription_cases). A case counts (non-trivial) only if the cutter actually fired; distinct = hash(case).",
     "assumptions": COMMON_ASSUME + [
         "retired means, measured after the subscriber saw the cutter's terminal: no tick of the producer later than one period after it, and no pending timer / live task at the horizon (interval); at most one more pull (from_iter); at most two more polls and no live task (from_stream)",
         "take(0) is not used as a cutter",
